@@ -29,6 +29,8 @@ func apiDocs() []string {
 		`{"a":1,"b":2}`, `{"a":{"c":1},"b":{"c":2}}`, `[{"a":0},{"a":1}]`, `[{"a":1,"b":2},{"a":2,"b":2},{"b":1}]`,
 		`{"a":[[1,2],[3]],"b":[4]}`, `{"a":1,"list":[10,20]}`, `{"a":2,"list":[10,20]}`, `{"x":[{"a":"s"},{"a":1.5},{"a":null},{"a":true},{"a":[1]},{"a":{"b":1}}]}`,
 		`{"a":{"b":{"c":[1,{"d":2}]}},"e":[{"f":1},{"f":2}]}`, `[[1,2],[3,4],[]]`, `{"b":"x","a":"y","c":{"b":1,"a":2}}`,
+		`[{"a":1e400},{"a":1}]`, `{"strict":false,"items":[{"ok":true,"n":1},{"ok":false,"n":5},{"n":7}]}`, `{"want":2,"items":[{"v":1},{"v":2},{"v":3}]}`, `{"items":[{"v":1},{"v":2}]}`,
+		`{"ref":[1,2],"list":[{"v":[1,2]},{"v":3}]}`, `[0,1,2,3,4]`, `[0,1,2,3,4,5,6,7,8,9,10,11,12]`,
 	}
 }
 
@@ -43,6 +45,9 @@ func apiPaths() []string {
 		`$[?($.a == 1)]`, `$[?(1 == $.a)]`, `$[?($.a)]`, `$[?($..a)]`, `$[?(@..a)]`, `$[?(1 == 1)]`, `$[?(1 == 2)]`, `$[?('a' == 1)]`, `$[?(@.a != $.zz)]`, `$[?(!(@.zz == $.zz))]`,
 		`$.x[?(@.a == 1.5)]`, `$.x[?(@.a > 1)]`, `$.x[?(@.a == 's')]`, `$.x[?(@.a =~ /^s$/)]`, `$.x[?(@.a == null)]`, `$.x[?(@.a != null)]`, `$.x[?(@.a == true || @.a == 's')]`,
 		`$.*.twice()`, `$.a.twice()`, `$.*.max()`, `$.a.*.max()`, `$.a.max()`, `$.*.collect()`, `$.a.collect()`, `$.*.fail()`, `$.*.afail()`, `$[?(@.a.twice() == 2)]`, `$[?(@.max() > 0)]`,
+		`$.items[?(($.strict == false || @.ok == true) && @.n > 1)]`, `$.items[?((@.ok == true || $.strict == false) && @.n > 1)]`, `$.items[?((!@.zz || @.ok == true) && @.n > 1)]`,
+		`$.items[?(@.v == $.want)]`, `$.items[?(@.v > $.want)]`, `$.list[?(@.v == $.ref)]`, `$.list[?($.ref == @.v)]`, `$[?(@ == $[0])]`, `$[?(@.a == $[0].a)]`, `$[?(@.a < 1e300)]`, `$[?(@.a >= 0)]`,
+		`$[-2:]`, `$[-3:]`, `$[-2:].twice()`, `$[1:3]`, `$[?(@ > 1)]`,
 		`$['a','b'].twice()`, `$['a','b'].collect()`, `$..a.collect()`, `$.zz`, `$.a.zz`, `$[10]`, `$.*.zz`, `$..zz`, `$[?(@.zz)]`, `$.a[0]`, `$[0].a`,
 	}
 	return base
@@ -319,6 +324,8 @@ func apiForeignDocs() ([]interface{}, []string) {
 	var docs []interface{}
 	var names []string
 	for i, l := range leaves {
+		docs = append(docs, map[string]interface{}{"ref": l, "list": []interface{}{map[string]interface{}{"v": l}, map[string]interface{}{"v": 1.0}}})
+		names = append(names, fmt.Sprintf("a document with the same %T value under $.ref and $.list[0].v (leaf %d)", l, i))
 		docs = append(docs, l, map[string]interface{}{"a": l, "b": 2.0}, []interface{}{l, map[string]interface{}{"a": l}, map[string]interface{}{"a": 1.0}},
 			map[string]interface{}{"x": []interface{}{map[string]interface{}{"a": l}, map[string]interface{}{"a": "s"}}, "a": l})
 		for k := 0; k < 4; k++ {
